@@ -432,6 +432,12 @@ func runC03(w *mon.W) {
 		switch mode {
 		case 0:
 			origin = "image of genbank.Parse over a generated file"
+			if r.Intn(8) == 0 {
+				// the two-word keyword of older flat files (NCBI before 2004, EMBOSS, Biopython test data): whatever
+				// the parser makes of it, writing and reading its image again must reproduce that image
+				rec.Extras = append(rec.Extras, gen.GBExtra{Key: "BASE COUNT", Text: fmt.Sprintf("%d a %d c %d g %d t", r.Intn(900), r.Intn(900), r.Intn(900), r.Intn(900))})
+				w.Add("files_with_a_BASE_COUNT_line", 1)
+			}
 			file := gen.WriteGB(rec, gen.RandLayout(r))
 			if p := mon.Try(func() { buf := []byte(file); x = genbank.Parse(buf); unchangedThenScribble(w, id, "genbank.Parse", buf, file) }); p != "" {
 				// C01's subject
